@@ -1,2 +1,242 @@
-import Bebop
-def main : IO Unit := IO.println "bebop-model"
+/-
+  Line-protocol driver for the executable model (see /verif/harness/PROTOCOL.md).
+  Core Lean only, so it links as a native executable.
+-/
+import Bebop.Slice
+import Bebop.Stream
+import Driver.Text
+
+open Bebop
+
+namespace Driver
+
+def hexDigit (n : Nat) : Char := if n < 10 then Char.ofNat (48 + n) else Char.ofNat (87 + n)
+
+def toHex (bs : List Byte) : String :=
+  if bs.isEmpty then "-" else
+  String.ofList (bs.foldr (fun b acc => hexDigit (b.toNat / 16) :: hexDigit (b.toNat % 16) :: acc) [])
+
+def hexVal (c : Char) : Option Nat :=
+  if '0' ≤ c ∧ c ≤ '9' then some (c.toNat - 48)
+  else if 'a' ≤ c ∧ c ≤ 'f' then some (c.toNat - 87)
+  else if 'A' ≤ c ∧ c ≤ 'F' then some (c.toNat - 55)
+  else none
+
+partial def fromHexChars : List Char → List Byte → Option (List Byte)
+  | [], acc => some acc.reverse
+  | [_], _ => none
+  | a :: b :: rest, acc =>
+    match hexVal a, hexVal b with
+    | some x, some y => fromHexChars rest (UInt8.ofNat (x * 16 + y) :: acc)
+    | _, _ => none
+
+def fromHex (s : String) : Option (List Byte) :=
+  if s == "-" then some [] else fromHexChars s.toList []
+
+/-! Parsers over token lists. -/
+
+partial def parseTy : List String → Option (Ty × List String)
+  | "bool" :: r => some (.bool, r)
+  | "s1" :: r => some (.scalar 1, r)
+  | "s2" :: r => some (.scalar 2, r)
+  | "s4" :: r => some (.scalar 4, r)
+  | "s8" :: r => some (.scalar 8, r)
+  | "f32" :: r => some (.f32, r)
+  | "f64" :: r => some (.f64, r)
+  | "date" :: r => some (.date, r)
+  | "str" :: r => some (.str, r)
+  | "guid" :: r => some (.guid, r)
+  | "arr" :: r => do
+    let (t, r') ← parseTy r
+    pure (.arr t, r')
+  | "map" :: r => do
+    let (k, r1) ← parseTy r
+    let (v, r2) ← parseTy r1
+    pure (.map k v, r2)
+  | "ref" :: n :: r => do
+    let i ← n.toNat?
+    pure (.ref i, r)
+  | _ => none
+
+mutual
+partial def parseVal : List String → Option (Val × List String)
+  | "n" :: w :: n :: r => do
+    let w ← w.toNat?
+    let n ← n.toNat?
+    pure (.scalar w n, r)
+  | "str" :: h :: r => do
+    let bs ← fromHex h
+    pure (.str bs, r)
+  | "guid" :: h :: r => do
+    let bs ← fromHex h
+    pure (.guid bs, r)
+  | "arr" :: c :: r => do
+    let c ← c.toNat?
+    let (vs, r') ← parseVals c r
+    pure (.arr vs, r')
+  | "st" :: c :: r => do
+    let c ← c.toNat?
+    let (vs, r') ← parseVals c r
+    pure (.struct vs, r')
+  | "map" :: c :: r => do
+    let c ← c.toNat?
+    let (kvs, r') ← parseKVs c r
+    pure (.map kvs, r')
+  | "msg" :: c :: r => do
+    let c ← c.toNat?
+    let (fs, r') ← parseFields c r
+    pure (.msg fs, r')
+  | "un" :: d :: r => do
+    let d ← d.toNat?
+    let (v, r') ← parseVal r
+    pure (.union d v, r')
+  | _ => none
+partial def parseVals : Nat → List String → Option (List Val × List String)
+  | 0, r => some ([], r)
+  | n+1, r => do
+    let (v, r1) ← parseVal r
+    let (vs, r2) ← parseVals n r1
+    pure (v :: vs, r2)
+partial def parseKVs : Nat → List String → Option (List (Val × Val) × List String)
+  | 0, r => some ([], r)
+  | n+1, r => do
+    let (k, r1) ← parseVal r
+    let (v, r2) ← parseVal r1
+    let (kvs, r3) ← parseKVs n r2
+    pure ((k, v) :: kvs, r3)
+partial def parseFields : Nat → List String → Option (List (Nat × Val) × List String)
+  | 0, r => some ([], r)
+  | n+1, r =>
+    match r with
+    | i :: r0 => do
+      let i ← i.toNat?
+      let (v, r1) ← parseVal r0
+      let (fs, r2) ← parseFields n r1
+      pure ((i, v) :: fs, r2)
+    | [] => none
+end
+
+mutual
+partial def showVal : Val → String
+  | .scalar w n => s!"n {w} {n}"
+  | .str bs => s!"str {toHex bs}"
+  | .guid bs => s!"guid {toHex bs}"
+  | .arr vs => s!"arr {vs.length}{showVals vs}"
+  | .struct vs => s!"st {vs.length}{showVals vs}"
+  | .map kvs => s!"map {kvs.length}" ++ String.join (kvs.map (fun (k, v) => " " ++ showVal k ++ " " ++ showVal v))
+  | .msg fs => s!"msg {fs.length}" ++ String.join (fs.map (fun (i, v) => s!" {i} " ++ showVal v))
+  | .union d v => s!"un {d} " ++ showVal v
+partial def showVals (vs : List Val) : String := String.join (vs.map (fun v => " " ++ showVal v))
+end
+
+partial def parseTys : Nat → List String → Option (List Ty × List String)
+  | 0, r => some ([], r)
+  | n+1, r => do
+    let (t, r1) ← parseTy r
+    let (ts, r2) ← parseTys n r1
+    pure (t :: ts, r2)
+
+partial def parseMsgFields : Nat → List String → Option (List MsgField × List String)
+  | 0, r => some ([], r)
+  | n+1, i :: d :: r => do
+    let i ← i.toNat?
+    let (t, r1) ← parseTy r
+    let (fs, r2) ← parseMsgFields n r1
+    pure ({ idx := i, ty := t, deprecated := d == "1" } :: fs, r2)
+  | _, _ => none
+
+partial def parseBranches : Nat → List String → Option (List (Nat × Nat) × List String)
+  | 0, r => some ([], r)
+  | n+1, d :: m :: r => do
+    let d ← d.toNat?
+    let m ← m.toNat?
+    let (bs, r1) ← parseBranches n r
+    pure ((d, m) :: bs, r1)
+  | _, _ => none
+
+def parseDef : List String → Option Def
+  | "struct" :: n :: r => do
+    let n ← n.toNat?
+    let (ts, r') ← parseTys n r
+    if r'.isEmpty then pure (.struct ts) else none
+  | "msg" :: n :: r => do
+    let n ← n.toNat?
+    let (fs, r') ← parseMsgFields n r
+    if r'.isEmpty then pure (.msg fs) else none
+  | "union" :: n :: r => do
+    let n ← n.toNat?
+    let (bs, r') ← parseBranches n r
+    if r'.isEmpty then pure (.union bs) else none
+  | _ => none
+
+structure St where
+  env : Array Def := #[]
+
+def fuelFor (env : Env) (n : Nat) : Nat := 2 * n + 4 * env.length + 64
+
+def setDef (st : St) (i : Nat) (d : Def) : St :=
+  let env := if i < st.env.size then st.env else st.env ++ Array.replicate (i + 1 - st.env.size) (Def.struct [])
+  { st with env := env.set! i d }
+
+def step (st : St) (line : String) : St × String :=
+  let toks := (line.splitOn " ").filter (· ≠ "")
+  let env := st.env.toList
+  match toks with
+  | ["env", _] => ({ st with env := #[] }, "ok")
+  | "def" :: i :: rest =>
+    match i.toNat?, parseDef rest with
+    | some i, some d => (setDef st i d, "ok")
+    | _, _ => (st, "bad-op def")
+  | "gotype" :: _ => (st, "ok")
+  | "enc" :: rest =>
+    match parseVal rest with
+    | some (v, []) => (st, s!"ok {toHex (enc v)} {vsize v}")
+    | _ => (st, "bad-op enc")
+  | "marshalto" :: h :: rest =>
+    match fromHex h, parseVal rest with
+    | some buf, some (v, []) =>
+      match marshalTo v buf with
+      | some (buf', n) => (st, s!"ok {toHex buf'} {n}")
+      | none => (st, "panic")
+    | _, _ => (st, "bad-op marshalto")
+  | ["dec", safe, i, h] =>
+    match i.toNat?, fromHex h with
+    | some i, some buf =>
+      match unmarshal (fuelFor env buf.length) env (safe == "1") i buf with
+      | .ok v => (st, "ok " ++ showVal v)
+      | .err => (st, "err")
+      | .panic => (st, "panic")
+      | .fuel => (st, "fuel")
+    | _, _ => (st, "bad-op dec")
+  | ["decs", i, h] =>
+    match i.toNat?, fromHex h with
+    | some i, some buf =>
+      match decodeStream (fuelFor env buf.length) env i buf with
+      | .ok v c => (st, s!"ok {showVal v} {c}")
+      | .err c => (st, s!"err {c}")
+      | .fuel => (st, "fuel")
+    | _, _ => (st, "bad-op decs")
+  | ["decsfail", i, k, h] =>
+    match i.toNat?, k.toNat?, fromHex h with
+    | some i, some k, some buf =>
+      match decodeStream (fuelFor env buf.length) env i (buf.take k) with
+      | .ok v c => (st, s!"ok {showVal v} {c}")
+      | .err c => (st, s!"err {c}")
+      | .fuel => (st, "fuel")
+    | _, _, _ => (st, "bad-op decsfail")
+  | "tok" :: _ | "parse" :: _ | "fmt" :: _ | "validate" :: _ | "cycle" :: _ | "imports" :: _ =>
+    (st, Driver.Text.step toks)
+  | _ => (st, "bad-op unknown")
+
+partial def loop (h : IO.FS.Stream) (out : IO.FS.Stream) (st : St) : IO Unit := do
+  let line ← h.getLine
+  if line.isEmpty then return ()
+  let (st', resp) := step st (line.trimAsciiEnd.toString)
+  out.putStrLn resp
+  out.flush
+  loop h out st'
+
+end Driver
+
+def main : IO Unit := do
+  Driver.loop (← IO.getStdin) (← IO.getStdout) {}
